@@ -236,4 +236,133 @@ theorem C15rib_modified_counterexample :
     (St.run {} mAsWritten [ann 2 3, wdr 2]).mx.modified = 1 ∧
     (St.run {} { wdEffectFix := true } [ann 2 3, wdr 2]).mx.modified = 0 := by decide
 
+/-! ### Counters never decrease — except `announced` -/
+
+theorem runFrom_append (rv : Rotonda.Rib.Variant) (v : MVariant) (s : St) (us vs : List Update) :
+    St.runFrom rv v s (us ++ vs) = St.runFrom rv v (St.runFrom rv v s us) vs := by
+  simp [St.runFrom, List.foldl_append]
+
+/-- **No counter ever decreases except `announced`.** Take any history of updates `us`, from any state,
+    and any continuation `vs` of it: every metric exported with type Counter other than
+    `rib_unit_num_routes_announced` (unique prefixes, insert retries, hard failures, modified
+    announcements, withdrawn routes, withdrawals without announcement), both gate counters, and the
+    `items` gauge are at least what they were after `us`. Both settings of every variant.
+    (`announced` does decrease: `C15rib_announced_decreases_counterexample`; the last conjunct repeats
+    that witness against the as-written code.) -/
+theorem C15rib_counters_monotone (rv : Rotonda.Rib.Variant) (v : MVariant) (s : St) (us vs : List Update) :
+    Mono (St.runFrom rv v s us).mx (St.runFrom rv v s (us ++ vs)).mx ∧
+    (St.run {} mAsWritten ([ann 2 3] ++ [wdr 2])).mx.announced < (St.run {} mAsWritten [ann 2 3]).mx.announced := by
+  refine ⟨?_, by decide⟩
+  rw [runFrom_append]
+  exact Mono_runFrom rv v vs _
+
+/-- non-vacuity: a continuation that moves four of the counters strictly. -/
+example :
+    let a := (St.run {} mAsWritten [ann 2 3]).mx
+    let b := (St.run {} mAsWritten ([ann 2 3] ++ [wdr 2, wdr 2 true, ann 3 4])).mx
+    Mono a b ∧ a.withdrawn < b.withdrawn ∧ a.modified < b.modified ∧ a.hardFailures < b.hardFailures ∧ a.gUpdates < b.gUpdates :=
+  ⟨(C15rib_counters_monotone {} mAsWritten St.empty [ann 2 3] [wdr 2, wdr 2 true, ann 3 4]).1,
+   by decide, by decide, by decide, by decide⟩
+
+/-! ### Durations -/
+
+/-- **Every end-to-end sample is zero as written and reflects the payload's age with the repaired
+    operand order.** After any history of updates every per-ingress `rib_unit_e2e_duration` sample has
+    the class of the duration variant (`false` = the exported value is 0 whatever the delay, because
+    `payload.received.duration_since(post_insert)` saturates; `true` = `post_insert.duration_since(
+    payload.received)`, the payload's age), and `rib_unit_insert_duration` holds a measurement only in
+    the repaired variant. -/
+theorem C15rib_durations (rv : Rotonda.Rib.Variant) (v : MVariant) (us : List Update) :
+    (∀ x ∈ (St.run rv v us).mx.e2e, x.2 = v.durationFix) ∧
+    ((St.run rv v us).mx.insertDurSet = true → v.durationFix = true) := by
+  have h := Dur_runFrom rv us (s := St.empty) (Dur_empty v)
+  exact ⟨h.e2e, h.ins⟩
+
+/-- as written: all zero; repaired: all aged. -/
+theorem C15rib_durations_split (rv : Rotonda.Rib.Variant) (w : Bool) (us : List Update) :
+    (∀ x ∈ (St.run rv { durationFix := false, wdEffectFix := w } us).mx.e2e, x.2 = false) ∧
+    (∀ x ∈ (St.run rv { durationFix := true, wdEffectFix := w } us).mx.e2e, x.2 = true) :=
+  ⟨(C15rib_durations rv _ us).1, (C15rib_durations rv _ us).1⟩
+
+/-- non-vacuity: two ingresses, two samples. -/
+example : (St.run {} mAsWritten [ann 2 3, ann 3 4, wdr 2]).mx.e2e = [(2, false), (3, false)] ∧
+          (St.run {} { durationFix := true } [ann 2 3, ann 3 4, wdr 2]).mx.e2e = [(2, true), (3, true)] := by decide
+
+/-- "the time taken from initial receipt to completed insertion": every sample reflects the payload's age. -/
+def durations_full : Prop :=
+  ∀ (rv : Rotonda.Rib.Variant) (us : List Update), ∀ x ∈ (St.run rv mAsWritten us).mx.e2e, x.2 = true
+
+/-- One announcement of a payload received 3 s before: the sample of ingress 2 is 0 as written (and the
+    insert duration was never a measurement); with the operands the right way round it shows the age. -/
+theorem C15rib_durations_counterexample :
+    (St.run {} mAsWritten [ann 2 3]).mx.e2e = [(2, false)] ∧
+    (St.run {} mAsWritten [ann 2 3]).mx.insertDurSet = false ∧
+    (St.run {} { durationFix := true } [ann 2 3]).mx.e2e = [(2, true)] ∧ ¬ durations_full := by
+  refine ⟨by decide, by decide, by decide, fun h => ?_⟩
+  have := h {} [ann 2 3] (2, false) (by decide)
+  revert this; decide
+
+/-! ### `unique_prefixes`: prefixes with at least one record, unless a withdrawal came first -/
+
+/-- **Guarded partial.** For any history of updates (announce / withdraw / session-withdraw cycles, both
+    SAFI tables, any ingress ids and contexts, any length) in which no withdrawal payload names a prefix
+    the store has no slot for (`blindWithdraw`: never announced and never withdrawn before in that
+    table), `rib_unit_num_unique_prefixes` (= `rib_unit_num_items`) is exactly the number of prefixes
+    with at least one record, unicast table plus multicast table, of the RIB content the unit holds —
+    which is C01's `Rib.applyAll` of the same updates (`C15rib_state_is_C01_run`). -/
+theorem C15rib_unique_prefixes_partial (rv : Rotonda.Rib.Variant) (v : MVariant) (us : List Update)
+    (hg : noKind .blindWithdraw (kinds rv us) = true) :
+    ∃ nu nm, CountsPrefixes (St.run rv v us).rib.unicast nu ∧ CountsPrefixes (St.run rv v us).rib.multicast nm ∧
+      (St.run rv v us).mx.uniquePrefixes = nu + nm ∧ (St.run rv v us).mx.items = nu + nm ∧
+      (St.run rv v us).rib = Rib.applyAll rv Rib.empty us := by
+  have h0 := cnt_zero_of_noKind hg
+  have hi : Inv v (kinds rv us) (St.run rv v us).mx (St.run rv v us).rib := by
+    have := Inv_run (rv := rv) (v := v) us (s := St.empty) (ks := []) (Inv_empty v)
+    simp only [List.nil_append] at this; exact this
+  have hrib : (St.run rv v us).rib = Rib.applyAll rv Rib.empty us := C15rib_state_is_C01_run rv v St.empty us
+  have hr : RP (kinds rv us) (St.run rv v us).rib := by
+    have := RP_applyAll rv us (ks := []) RP_empty
+    simp only [List.nil_append] at this; rw [hrib]; exact this
+  have hf := hr.full h0
+  have h1 := hi.kn
+  have h2 := hi.up
+  have h3 := hi.it
+  simp only [K] at h1
+  exact ⟨_, _, counts_of_full hr.pu hf.1, counts_of_full hr.pm hf.2, by omega, by omega, hrib⟩
+
+/-- The same for a history of source events (C01's `History`): the RIB content is C01's `run`. -/
+theorem C15rib_unique_prefixes_history (rv : Rotonda.Rib.Variant) (v : MVariant) (h : History)
+    (hg : noKind .blindWithdraw (kinds rv (h.flatMap (Ev.updates rv))) = true) :
+    ∃ nu nm, CountsPrefixes (Rotonda.Rib.run rv h).unicast nu ∧ CountsPrefixes (Rotonda.Rib.run rv h).multicast nm ∧
+      (runHistory rv v h).mx.uniquePrefixes = nu + nm ∧ (runHistory rv v h).mx.items = nu + nm := by
+  obtain ⟨nu, nm, h1, h2, h3, h4, _⟩ := C15rib_unique_prefixes_partial rv v _ hg
+  rw [← C15rib_history_is_C01_run rv v h]
+  exact ⟨nu, nm, h1, h2, h3, h4⟩
+
+/-- non-vacuity: two ingresses announce, one withdraws and re-announces, a session goes down, a second
+    prefix in the multicast table: the guard holds and the counter is 2. -/
+example :
+    noKind .blindWithdraw (kinds {} [ann 2 3, ann 3 4, wdr 2, ann 2 5, .withdraw 3 none, ann 2 3 true, wdr 3 true]) = true ∧
+    (St.run {} mAsWritten [ann 2 3, ann 3 4, wdr 2, ann 2 5, .withdraw 3 none, ann 2 3 true, wdr 3 true]).mx.uniquePrefixes = 2 := by
+  decide
+
+/-- The unguarded statement. -/
+def unique_prefixes_full : Prop :=
+  ∀ (rv : Rotonda.Rib.Variant) (v : MVariant) (us : List Update),
+    ∃ nu nm, CountsPrefixes (St.run rv v us).rib.unicast nu ∧ CountsPrefixes (St.run rv v us).rib.multicast nm ∧
+      (St.run rv v us).mx.uniquePrefixes = nu + nm
+
+/-- It fails: a withdrawal of a prefix the store never saw, then its announcement. The guard is false
+    for this history, one prefix has a record, the counter says 0. -/
+theorem C15rib_unique_prefixes_not_full :
+    noKind .blindWithdraw (kinds {} [wdr 2, ann 2 3]) = false ∧
+    hasRec (St.run {} mAsWritten [wdr 2, ann 2 3]).rib.unicast P = true ∧
+    (St.run {} mAsWritten [wdr 2, ann 2 3]).mx.uniquePrefixes = 0 ∧ ¬ unique_prefixes_full := by
+  refine ⟨by decide, by decide, by decide, fun h => ?_⟩
+  obtain ⟨nu, nm, ⟨l, _, hl, hlen⟩, _, hup⟩ := h {} mAsWritten [wdr 2, ann 2 3]
+  have hmem : P ∈ l := (hl P).2 (by decide)
+  have hpos := List.length_pos_of_mem hmem
+  have h0 : (St.run {} mAsWritten [wdr 2, ann 2 3]).mx.uniquePrefixes = 0 := by decide
+  omega
+
 end Rotonda.RibMetrics
